@@ -594,7 +594,15 @@ def _policy(F, ctx, node_name, side, pol, n_edges, n_answers):
         elif isinstance(pol, int):
             F.sel_answers[(node_name, side)] = [pol] * 64
         return pol
-    # user callable / generator whose answers the solver chooses
+    # user callable / generator whose answers the solver chooses ("...-bad": out-of-range answers -1 and n included - they must be rejected with an
+    # error, never wrapped or ignored; a routed item then disagrees with the recorded answer)
+    bad = isinstance(pol, str) and pol.endswith("-bad")
+    if bad:
+        pol = pol[:-4]
+        vals = [ctx.choice(n_edges + 2, f"{node_name}.{side}.answer") - 1 for _ in range(n_answers)]
+        F.sel_answers[(node_name, side)] = vals + [0] * 64
+        F.ctx.hit("C15:out-of-range-answers-offered")
+        return F.selector(node_name, side, vals, "generator" if pol == "generator" else "callable", after=0)
     vals = [ctx.choice(n_edges, f"{node_name}.{side}.answer") for _ in range(n_answers)]
     F.sel_answers[(node_name, side)] = vals + [0] * 64
     return F.selector(node_name, side, vals, "generator" if pol == "generator" else "callable", after=0)
